@@ -76,7 +76,8 @@ def build(c, spec):
     else:
         pool = AUTH_PATHS * 3 + NOAUTH_PATHS
         key = rng.choice(pool)
-        tx = btctx.gen_tx(rng, max_in=spec["max_in"], max_out=spec["max_out"], big=big)
+        tx = btctx.gen_tx(rng, max_in=spec["max_in"], max_out=spec["max_out"], big=big,
+                          edges=True if big else "scripts")
         nin = len(tx["ins"])
         idx = rng.choice([0, 1 % nin, nin - 1, 2**32 - 1, rng.getrandbits(32), rng.randrange(nin)])
         segwit = None
